@@ -49,6 +49,15 @@ def gen_harnesses(tier, seed):
         checks = [("int", "int", None), ("bool", "bool", None), ("str", "str", "len(x) <= 3" if tier != "quick" else "len(x) <= 2")]
         src = gen.one_position_module(methods, [0, 1, 2, 11, 12, -3, 7, True, False, "a", "ab", "", "abc"], checks)
         out.append((f"c10_one_{i}", src, dict(family="one position", methods=methods)))
+    U = 10 if tier == "quick" else 60
+    for i in range(U):
+        b, other = rng.choice((("int", "str"), ("str", "int"), ("int", "list")))
+        methods = [dict(kind="depunion", bound=b, other=other, pred=pred(b), prio=0), dict(kind="static", bound="object", prio=-1)]
+        if rng.random() < 0.5:
+            methods.append(dict(kind="static", bound=b, prio=-1 if rng.random() < 0.5 else 0))
+        checks = [("int", "int", None), ("str", "str", "len(x) <= 2")]
+        src = gen.one_position_module(methods, [0, 1, 2, 11, 12, -3, 7, True, "a", "ab", "", [1], []], checks)
+        out.append((f"c10_union_{i}", src, dict(family="dependent type inside a union", methods=methods)))
     M = 16 if tier == "quick" else 120
     for i in range(M):
         a, b = rng.randint(-3, 10), rng.randint(-3, 10)
